@@ -881,6 +881,24 @@ def gen_ray(rng, cfg, bound, edge):
     """ray in the object's local frame: (origin, unit direction, class)"""
     centre, size = bound['centre'], bound['size']
     k = rng.random()
+    if k < 0.08 and not edge:
+        # origin exactly ON the surface of the bounding primitive, looking inwards (a detector flush with a grid face):
+        # raysect then hands the integrator a zero-length segment in addition to the real chord
+        if bound['kind'] == 'box':
+            a = rng.randrange(3)
+            o = [rng.uniform(0.1, 0.9) * bound['upper'][b] for b in range(3)]
+            lowface = rng.random() < 0.5
+            o[a] = 0.0 if lowface else bound['upper'][a]
+            d = [rng.uniform(-0.5, 0.5) for _ in range(3)]
+            d[a] = 1.0 if lowface else -1.0
+        else:
+            r0 = rng.uniform(bound['r_in'] + 0.1 * cfg['steps'][0], bound['r_out'] - 0.1 * cfg['steps'][0])
+            ph = rng.uniform(-math.pi, math.pi)
+            top = rng.random() < 0.5
+            o = [r0 * math.cos(ph), r0 * math.sin(ph), bound['h'] if top else 0.0]
+            d = [rng.uniform(-0.3, 0.3), rng.uniform(-0.3, 0.3), -1.0 if top else 1.0]
+        nd = math.sqrt(sum(c * c for c in d))
+        return o, [c / nd for c in d], 'on-surface'
     if k < 0.2:
         if bound['kind'] == 'box':
             o = [rng.uniform(0.05, 0.95) * bound['upper'][a] for a in range(3)]
@@ -987,7 +1005,8 @@ def judge_e2e(ctx, metas, outs, glines, gexp, gout):
             ctx.count('E:grazing-skipped')
             continue
         # raysect integrates from the far end towards the ray origin: orient the recorded segments along the ray
-        rsegs = sorted([(sg if _along(sg[:3], o, d) <= _along(sg[3:], o, d) else sg[3:] + sg[:3]) for sg in m['segs']],
+        rsegs = sorted([(sg if _along(sg[:3], o, d) <= _along(sg[3:], o, d) else sg[3:] + sg[:3]) for sg in m['segs']
+                        if math.dist(sg[:3], sg[3:]) > 1e-9 * scale],          # zero-length segments (origin on the surface) carry nothing
                        key=lambda sg: _along(sg, o, d))
         # tolerance: well above the 1e-5-cell shrink (its exact size is compared with the model, K), well below a sample step
         cellmin = min(cfg['steps']) if cfg['geo'] == 'cart' else min(cfg['steps'][0], cfg['steps'][2])
